@@ -118,19 +118,24 @@ def generate(rng, tier, idx):
         for j in order:
             if rng.chance(50):
                 session.append({"m": "close_lib", "lib": j})
-    if mode["strict"] and ws and rng.chance(35):
+    def emit_episode():
         # an "overlay episode" that is over before the documents get their final texts: a library is opened with unsaved text, poked at -
         # documents may be opened and analysed against it meanwhile - and closed again without touching the disk.  didClose re-reads the
         # file; every document touched during the episode is sent again afterwards (often with byte-identical text), so at the end the
         # server must be indistinguishable from a fresh one.
         j = rng.below(len(ws))
-        session.append({"m": "open_lib", "lib": j, "text": gen_ucg.mutate(rng, ws[j]["text"]), "unsaved": True, "episode": True})
+        unsaved = gen_ucg.semantic_edit(rng, ws[j]["text"]) if rng.chance(55) else gen_ucg.mutate(rng, ws[j]["text"])
+        session.append({"m": "open_lib", "lib": j, "text": unsaved, "unsaved": True, "episode": True})
         cur = session[-1]["text"]
         during = []
         for _ in range(rng.between(0, 4)):
-            if rng.chance(35):
+            if rng.chance(40):
                 i = rng.below(ndocs)
-                cls, text = gen_ucg.gen_text(rng, imports_for(docs[i]), True, exports_for(docs[i]))
+                up = "../" if docs[i]["path"].startswith("sub/") else "./"
+                # preferably a document that imports the very library being edited
+                paths = [up + ws[j]["path"]] if rng.chance(70) else imports_for(docs[i])
+                cls, text = (("simple", gen_ucg.gen_simple(rng, paths, exports_for(docs[i]))) if rng.chance(60)
+                             else gen_ucg.gen_text(rng, paths, True, exports_for(docs[i])))
                 if i in state:
                     session.append({"m": "change", "doc": i, "texts": [text], "cls": cls})
                 else:
@@ -159,6 +164,10 @@ def generate(rng, tier, idx):
                 session.append({"m": "change", "doc": i, "texts": [text], "cls": cls})
                 state[i] = text
                 last_text[i] = text
+
+    episode_at = rng.weighted([("none", 55), ("start", 20), ("end", 25)]) if (mode["strict"] and ws) else "none"
+    if episode_at == "start":
+        emit_episode()
     for step in range(nmsg):
         opened = sorted(state)
         choices = [("open", 5 if len(opened) < ndocs else 1), ("change", 8 if opened else 0), ("close", 2 if opened else 0),
@@ -263,6 +272,8 @@ def generate(rng, tier, idx):
             else:
                 session.append({"m": "odd", "kind": kind, "doc": i})
             continue
+    if episode_at == "end":
+        emit_episode()
     # strict mode: probe requests put to the session's server and to a fresh server at the very end; the answers must agree
     final_probes = []
     if mode["strict"]:
